@@ -32,6 +32,10 @@ type FuncContract struct {
 	Invs     []*Clause
 	Modifies []string // ghost vars and heap components the function may change beyond fresh memory
 	Uses     []string // opt-in lemma axioms available to this function's obligations
+	Ghosts   []string // function-local ghost arrays (Array Int Int), existential for callers
+	GhostUpd []*GhostUpd
+	Defines  map[string]*Define
+	NoMerge  bool     // do not merge symbolic states at control-flow joins (enumerate paths)
 	Inline   bool     // no contract: callers execute the body
 	Trusted  bool     // contract assumed, body not verified (must be listed)
 	MayPanicRNG bool
@@ -41,12 +45,28 @@ type FuncContract struct {
 	Notes    []string
 }
 
+// GhostUpd: "loop k ghost G[idx] = val", executed when the loop body is entered.
+type GhostUpd struct {
+	Loop     int
+	Name     string
+	Idx, Val ast.Expr
+	Line     int
+}
+
+// Define: a contract-local macro "define f(a, b) = expr".
+type Define struct {
+	Params []string
+	Body   ast.Expr
+}
+
 type ContractSet struct {
 	Funcs map[string]*FuncContract
 	Order []string
 }
 
 var clauseHead = regexp.MustCompile(`^(requires|ensures|panics|raises|assume)\s*(\[[^\]]*\])?\s*([A-Za-z0-9_\-\.]+)\s*:\s*(.*)$`)
+var ghostUpdHead = regexp.MustCompile(`^loop\s+(\d+)\s+ghost\s+([A-Za-z_][A-Za-z0-9_]*)\[(.*?)\]\s*=\s*(.*)$`)
+var defineHead = regexp.MustCompile(`^define\s+([A-Za-z_][A-Za-z0-9_]*)\(([^)]*)\)\s*=\s*(.*)$`)
 var loopHead = regexp.MustCompile(`^loop\s+(\d+)\s+invariant\s*(\[[^\]]*\])?\s*([A-Za-z0-9_\-\.]+)\s*:\s*(.*)$`)
 
 func parseContractFile(path string, cs *ContractSet) error {
@@ -56,6 +76,7 @@ func parseContractFile(path string, cs *ContractSet) error {
 	}
 	var cur *FuncContract
 	var last *Clause
+	var pendingDefine *Define
 	finish := func() error {
 		if last != nil {
 			e, err := parseContractExpr(last.Text)
@@ -63,6 +84,10 @@ func parseContractFile(path string, cs *ContractSet) error {
 				return fmt.Errorf("%s:%d: clause %s: %v", path, last.Line, last.Name, err)
 			}
 			last.Expr = e
+			if last.Kind == "define" && pendingDefine != nil {
+				pendingDefine.Body = e
+				pendingDefine = nil
+			}
 			last = nil
 		}
 		return nil
@@ -113,6 +138,53 @@ func parseContractFile(path string, cs *ContractSet) error {
 			last = c
 			continue
 		}
+		if m := ghostUpdHead.FindStringSubmatch(t); m != nil {
+			if err := finish(); err != nil {
+				return err
+			}
+			n, _ := strconv.Atoi(m[1])
+			ie, err := parseContractExpr(m[3])
+			if err != nil {
+				return fmt.Errorf("%s:%d: %v", path, i+1, err)
+			}
+			ve, err := parseContractExpr(m[4])
+			if err != nil {
+				return fmt.Errorf("%s:%d: %v", path, i+1, err)
+			}
+			cur.GhostUpd = append(cur.GhostUpd, &GhostUpd{Loop: n, Name: m[2], Idx: ie, Val: ve, Line: i + 1})
+			continue
+		}
+		if m := defineHead.FindStringSubmatch(t); m != nil {
+			if err := finish(); err != nil {
+				return err
+			}
+			d := &Define{}
+			for _, x := range strings.Split(m[2], ",") {
+				if x = strings.TrimSpace(x); x != "" {
+					d.Params = append(d.Params, x)
+				}
+			}
+			if cur.Defines == nil {
+				cur.Defines = map[string]*Define{}
+			}
+			cur.Defines[m[1]] = d
+			// the body may continue on following lines: use a pseudo clause
+			c := &Clause{Kind: "define", Name: m[1], Text: m[3], Line: i + 1, Func: cur.Key}
+			pendingDefine = d
+			last = c
+			continue
+		}
+		if strings.HasPrefix(t, "ghost ") {
+			if err := finish(); err != nil {
+				return err
+			}
+			for _, x := range strings.Split(strings.TrimPrefix(t, "ghost "), ",") {
+				if x = strings.TrimSpace(x); x != "" {
+					cur.Ghosts = append(cur.Ghosts, x)
+				}
+			}
+			continue
+		}
 		if m := loopHead.FindStringSubmatch(t); m != nil {
 			if err := finish(); err != nil {
 				return err
@@ -142,6 +214,8 @@ func parseContractFile(path string, cs *ContractSet) error {
 					cur.Uses = append(cur.Uses, x)
 				}
 			}
+		case t == "nomerge":
+			cur.NoMerge = true
 		case t == "inline":
 			cur.Inline = true
 		case t == "trusted":
